@@ -11,7 +11,8 @@ Conventions (what the generated text means):
   integer `/` and `%` ↦ `Int.tdiv`, `Int.tmod` (truncation toward zero).
 * Go `[]float64`, and a whole series (`data.ND1Float64`) in whole-function mode ↦ `List α`.
   `xs[i]` ↦ `sliceGet xs i`, `xs[i] = v` ↦ `xs := sliceSet xs i v`, `make([]float64, n)` ↦ `mkSlice n`, `len(xs)` /
-  `xs.Len1()` ↦ `sliceLen xs`, `dst.CopyFrom(src)` ↦ `dst := copyFrom dst src`.
+  `xs.Len1()` ↦ `sliceLen xs`, `dst.CopyFrom(src)` ↦ `dst := copyFrom dst src`, `copy(dst[a:b], src[c:d])` ↦
+  `dst := sliceCopy dst a b src c d`.
   An OUT-OF-RANGE access is a panic in Go; here `sliceGet` returns the default value and `sliceSet` leaves the list
   unchanged (a negative index is treated like index 0 by `Int.toNat`): panics of this kind are NOT part of the tie — the
   hand-written models guard them explicitly and the behavioural correspondence runs check them.
@@ -143,5 +144,34 @@ theorem forRangeN_congr {σ : Type} (f g : Int → σ → σ) (n : Nat) (i : Int
 
 theorem sliceSet_length (xs : List α) (i : Int) (v : α) : sliceLen (sliceSet xs i v) = sliceLen xs := by
   simp [sliceLen, sliceSet]
+
+/-! ### `copy` (work package R3) -/
+
+/-- `copy(dst[dlo:dhi], src[slo:shi])`: Go copies `min (dhi - dlo) (shi - slo)` elements, as if through a temporary (the two
+slices may overlap, or be the same). Slice bounds beyond the length are a Go panic (beyond the capacity): NOT modelled — the
+segment is cut to what the lists hold, and the length of `dst` is kept. -/
+def sliceCopy (dst : List α) (dlo dhi : Int) (src : List α) (slo shi : Int) : List α :=
+  let seg := (((src.drop slo.toNat).take (shi - slo).toNat).take (dhi - dlo).toNat).take (dst.length - dlo.toNat)
+  dst.take dlo.toNat ++ seg ++ dst.drop (dlo.toNat + seg.length)
+
+theorem sliceCopy_length (dst : List α) (dlo dhi : Int) (src : List α) (slo shi : Int) :
+    (sliceCopy dst dlo dhi src slo shi).length = dst.length := by
+  unfold sliceCopy
+  simp only [List.length_append, List.length_take, List.length_drop]
+  omega
+
+/-- `copy(q[:n-1], q[1:n])` moves every element one place down (the last one stays) -/
+theorem sliceCopy_shift (q : List α) (n : Nat) (hq : q.length = n) :
+    sliceCopy q 0 ((n : Int) - 1) q 1 (n : Int) = q.tail ++ q.drop (n - 1) := by
+  unfold sliceCopy
+  have h1 : ((n : Int) - 1 - 0).toNat = n - 1 := by omega
+  have h2 : ((n : Int) - 1).toNat = n - 1 := by omega
+  have h3 : (1 : Int).toNat = 1 := rfl
+  have h4 : (0 : Int).toNat = 0 := rfl
+  simp only [h1, h2, h3, h4, List.take_zero, List.nil_append, Nat.sub_zero, Nat.zero_add, hq, List.drop_one]
+  have ht : q.tail.length = n - 1 := by simp [hq]
+  have e1 : List.take (n - 1) q.tail = q.tail := List.take_of_length_le (by omega)
+  have e2 : List.take n q.tail = q.tail := List.take_of_length_le (by omega)
+  rw [e1, e1, e2, ht]
 
 end OW.Gen.Prelude
